@@ -51,7 +51,7 @@ def binary(engine, tier, flavour):
 
 def cov_exclude(engine):
     """configurations left out of the -O0 coverage slice (too slow unoptimised)"""
-    return "#huge,#enum" if engine.startswith("static_") else ""
+    return "#huge,#enum" if engine.startswith("static_") else ("#enum" if engine == "dynamic" else "")
 
 
 def R(engine, flavour, cases, **kw):
@@ -189,7 +189,7 @@ PLANS["C04"] = dict(
 def dyn_runs(q, t):
     def runs(tier):
         if tier == "quick":
-            return [R("dynamic", "asan", q)]
+            return [R("dynamic", "asan", q, exclude="#enum")]
         return [R("dynamic", "asan", t), R("dynamic", "rel", t * 2)]
     return runs
 
@@ -396,7 +396,7 @@ def c17_runs(tier):
     return [
         Q("static_pgm", "asan", 500 if q else 2500), Q("static_comp", "asan", 700 if q else 2500),
         Q("static_bucket", "asan", 600 if q else 2500), Q("static_ef", "asan", 700 if q else 2500),
-        R("segmentation", "asan", 500 if q else 4000), R("dynamic", "asan", 250 if q else 800),
+        R("segmentation", "asan", 500 if q else 4000), R("dynamic", "asan", 250 if q else 800, exclude="#enum"),
         R("mapped", "asan", 250 if q else 800), R("multidim", "asan", 300 if q else 1000),
         R("copymove", "asan", 210 if q else 2100), R("cinterface", "asan", 300 if q else 2000),
     ]
